@@ -93,6 +93,7 @@ def run(pid, tier, seed):
   runs = nontriv = queries = 0
   solver_s = 0.0
   harness, cand, not_ex = [], {}, []
+  known = common.load_known()
   for a, (st, r) in zip(args, results):
     if st != "ok":
       harness.append("shard %s failed: %s" % (a[:3], str(r)[:1500]))
@@ -106,10 +107,13 @@ def run(pid, tier, seed):
     for o in r["outputs"]:
       for v in o["violations"]:
         msg = re.sub(r"0x[0-9a-f]+", "0x", v["msg"])
+        # the part after the exception head identifies what went wrong
+        detail = re.sub(r"^bundle raised \w+ \(.*?\)(;| but| and) ?", "", msg, count=1)
         sig = {"pid": pid, "fixture": a[0], "kinds_str": " ".join(u[0] + (":" + u[1] if str(u[1]).startswith("_grist_") else "") for u in v["bundles"][0]),
                "fault": "%s/%s" % (v["fault"].get("target"), "before" if v["fault"].get("before", True) else "after"),
-               "kind": v["kind"], "msg": msg[:300], "bundles": json.dumps(v["bundles"], default=repr)}
-        key = (sig["kinds_str"], sig["fault"], v["kind"], re.sub(r"[\d.]+", "#", msg)[:70], a[0])
+               "kind": v["kind"], "msg": msg[:400], "detail": detail[:300], "bundles": json.dumps(v["bundles"], default=repr)}
+        kf = common.match_known(pid, sig, known)
+        key = (kf["id"],) if kf else (sig["kinds_str"], sig["fault"], v["kind"], re.sub(r"[\d.]+", "#", detail)[:90], a[0])
         if key not in cand:
           cand[key] = {"sig": sig, "msg": v["msg"],
                        "witness": {"fixture": a[0], "bundles": v["bundles"], "fault": v["fault"], "oracle": pid}}
